@@ -9,6 +9,7 @@ mod op_validate;
 mod render;
 mod rng;
 mod schemas;
+mod shrink;
 mod sx;
 
 use std::io::Write;
@@ -40,6 +41,11 @@ fn main() {
         for si in jobs::schema_pool() {
             println!("{}\t{}", si.name, sx::schema(&si.doc));
         }
+        return;
+    }
+    if args[1] == "shrink" {
+        // gth shrink <replay.json> <driver> <mode: model|spec> <out.json>
+        shrink_cmd(&args[2], &args[3], &args[4], &args[5]);
         return;
     }
     let mut prop = "C15".to_string();
@@ -162,4 +168,136 @@ fn emit(prop: &str, tier: &str, seed: u64, shard: (usize, usize), out: &str, rep
         .unwrap();
     }
     writeln!(f_meta, "{{\"unparsable\":{}}}", unparsable).unwrap();
+}
+
+fn parse_blocks(text: &str) -> Vec<String> {
+    let mut out = vec![];
+    let mut inside = false;
+    for l in text.lines() {
+        if l.starts_with("#CASE ") {
+            inside = true;
+        } else if l == "#END" {
+            inside = false;
+        } else if inside {
+            out.push(l.to_string());
+        }
+    }
+    out
+}
+
+fn canon(lines: &[String]) -> Vec<String> {
+    let mut out = vec![];
+    let mut buf: Option<Vec<String>> = None;
+    for l in lines {
+        if l == "#UNORDERED" {
+            buf = Some(vec![]);
+        } else if l == "#ORDERED" {
+            if let Some(mut b) = buf.take() {
+                b.sort();
+                out.extend(b);
+            }
+        } else if let Some(b) = buf.as_mut() {
+            b.push(l.clone());
+        } else {
+            out.push(l.clone());
+        }
+    }
+    if let Some(mut b) = buf.take() {
+        b.sort();
+        out.extend(b);
+    }
+    out
+}
+
+/// does the implementation's output differ from the model's (mode "model") or the oracle's
+/// (mode "spec") output on this document?
+fn differs(si: &gen::SchemaInfo, doc_text: &str, op: &str, extra: &[String], driver: &str, mode: &str, tmp: &str) -> Option<(Vec<String>, Vec<String>)> {
+    let doc = match graphql_tools::parser::parse_query::<String>(doc_text) {
+        Ok(d) => d.into_static(),
+        Err(_) => return None,
+    };
+    let c = Case { id: "x".into(), family: "shrink".into(), schema: 0, op: op.to_string(), doc: Some(doc_text.to_string()), extra: extra.to_vec(), note: String::new() };
+    let impl_lines = match catch_unwind(AssertUnwindSafe(|| jobs::run_impl(&c, si, Some(&doc)))) {
+        Ok(l) => l,
+        Err(_) => vec!["PANIC".to_string()],
+    };
+    let mut line = format!("(C x {} {}", op, sx::document(&doc));
+    for e in extra {
+        line.push(' ');
+        line.push_str(e);
+    }
+    line.push(')');
+    let input = format!("(S {})\n{}\n", sx::schema(&si.doc), line);
+    let inpath = format!("{}/shrink_case.sexp", tmp);
+    std::fs::write(&inpath, input).unwrap();
+    let outp = std::process::Command::new("sh")
+        .arg("-c")
+        .arg(format!("ulimit -s unlimited; {} < {}", driver, inpath))
+        .output()
+        .ok()?;
+    let all = parse_blocks(&String::from_utf8_lossy(&outp.stdout));
+    let (model, spec): (Vec<String>, Option<Vec<String>>) = match all.iter().position(|l| l == "#SPEC") {
+        Some(i) => (all[..i].to_vec(), Some(all[i + 1..].to_vec())),
+        None => (all, None),
+    };
+    let a = canon(&impl_lines);
+    let b = if mode == "spec" {
+        match spec {
+            Some(s) => {
+                if s.first().map(|l| l.starts_with("EXEMPT")).unwrap_or(false) {
+                    return None;
+                }
+                canon(&s)
+            }
+            None => return None,
+        }
+    } else {
+        canon(&model)
+    };
+    if a != b {
+        Some((a, b))
+    } else {
+        None
+    }
+}
+
+fn shrink_cmd(replay: &str, driver: &str, mode: &str, out: &str) {
+    let text = std::fs::read_to_string(replay).expect("replay file");
+    let v: serde_json::Value = serde_json::from_str(&text).expect("json");
+    let sdl = v["schema_sdl"].as_str().unwrap_or("");
+    let si = gen::SchemaInfo::new(v["schema"].as_str().unwrap_or("replay"), sdl);
+    let op = v["op"].as_str().unwrap_or("validate").to_string();
+    let extra: Vec<String> = v["extra"].as_array().map(|a| a.iter().map(|x| x.as_str().unwrap_or("").to_string()).collect()).unwrap_or_default();
+    let doc_text = v["doc"].as_str().unwrap_or("").to_string();
+    let tmp = std::path::Path::new(out).parent().map(|p| p.to_string_lossy().to_string()).unwrap_or_else(|| ".".into());
+    std::panic::set_hook(Box::new(|_| {}));
+    std::env::set_var("GTH_SHRINK_DRIVER", driver);
+    std::env::set_var("GTH_SHRINK_MODE", mode);
+    let handle = std::thread::Builder::new().stack_size(512 * 1024 * 1024).spawn(move || {
+        let doc = graphql_tools::parser::parse_query::<String>(&doc_text).expect("doc parses").into_static();
+        let g = shrink::from_document(&doc);
+        if differs(&si, &g.print(), &op, &extra, &driver_s(), &mode_s(), &tmp).is_none() {
+            // printing changed the behaviour (or nothing differs): keep the original
+            return (doc_text.clone(), false, si, op, extra, tmp);
+        }
+        let small = shrink::shrink(&g, |t| differs(&si, t, &op, &extra, &driver_s(), &mode_s(), &tmp).is_some(), 20000);
+        (small.print(), true, si, op, extra, tmp)
+    });
+    // (driver and mode are passed through environment to keep the closure 'static)
+    let (small, ok, si, op, extra, tmp) = handle.unwrap().join().unwrap();
+    let d = differs(&si, &small, &op, &extra, driver, mode, &tmp);
+    let mut o = v.clone();
+    o["doc"] = serde_json::Value::String(small);
+    o["shrunk"] = serde_json::Value::Bool(ok);
+    if let Some((a, b)) = d {
+        o["implementation_output"] = serde_json::to_value(a).unwrap();
+        o[if mode == "spec" { "oracle_output" } else { "model_output" }] = serde_json::to_value(b).unwrap();
+    }
+    std::fs::write(out, serde_json::to_string_pretty(&o).unwrap()).unwrap();
+}
+fn driver_s() -> String {
+    std::env::var("GTH_SHRINK_DRIVER").unwrap_or_default()
+}
+fn mode_s() -> String {
+    std::env::var("GTH_SHRINK_MODE").unwrap_or_default()
 }
